@@ -1,5 +1,6 @@
 import ParryModel.C04.DriverClosed
 import ParryModel.C04.Composite
+import ParryModel.C04.Driver2D
 /-! C04 protocol handlers: the closed-form / primitive casts (`DriverClosed.lean`) and the composite-shape casts with the
 BVH pruning test (`Composite.lean`). -/
 namespace C04
@@ -7,6 +8,8 @@ namespace C04
 def handler (fn : String) : Option Proto.Handler :=
   match handlerClosed fn with
   | some h => some h
-  | none => handlerComposite fn
+  | none => match handlerComposite fn with
+    | some h => some h
+    | none => handler2D fn
 
 end C04
